@@ -59,7 +59,8 @@ def units(tier):
 
 
 def meta(tier):
-    return dict(bounds=dict(programs=len(PG.base_programs()) + 4, runs="runs of 1-3 whole statement lines" , include_dirs=2, nesting="0-1 nested include",
+    return dict(bounds=dict(programs=len(PG.base_programs()) + 4, runs="runs of 1-5 whole statement lines; every single statement; the statement directly in front of every construct", include_dirs=2, nesting="0-2 nested includes",
+                            placement=["first dir", "second dir", "both (decoy in the second)", "absent", "absent with a directory of that name in the first dir"],
                             reader_kinds=["FortranStringReader", "FortranFileReader"],
                             symbolic="file name (3 name characters), letter case of INCLUDE, quote kind, blanks after INCLUDE"),
                 assumptions=["include files are written with two blanks of indentation; the nested reader detects their source form from their content",
